@@ -220,6 +220,8 @@ def Decoder (_ : ResProvider) : ResDecoder := {}
 def AuthMethodPostSupported (p : ResProvider) : Bool := p.postSupported
 def AuthMethodPrivateKeyJWTSupported (p : ResProvider) : Bool := p.pkjwtSupported
 def JWTProfileVerifier (p : ResProvider) : JWTProfileVerifier := p.jwtProfileVerifier
+/-- `p.(interface{ AuthMethodPostSupported() bool })`: *op.Provider reports whether client_secret_post is enabled -/
+def is_has_AuthMethodPostSupported (_ : ResProvider) : Bool := true
 end ResProvider
 
 /-- `*oidc.AccessTokenClaims` as far as the readers use it; `present = false` is the nil pointer -/
